@@ -72,14 +72,18 @@ Call(k) ==
   LET shape == ShapeW[(k % Len(ShapeW)) + 1]
       req == R(1..9)
       steps == Walk(k, New(shape, req), <<>>, R(1..100) <= DlPct)
-  IN [n |-> k, kind |-> "call", shape |-> shape, req |-> req, steps |-> steps,
+      hasCx == \E i \in 1..Len(steps) : steps[i].c \in {"cancel", "deadline"}
+      \* contexts without outgoing metadata only on calls that run to their end (the harness
+      \* finds the script of such a call by elimination)
+      mdk == IF hasCx THEN 0 ELSE <<0, 0, 0, 0, 1, 2, 2>>[R(1..7)]
+  IN [n |-> k, kind |-> "call", shape |-> shape, req |-> req, mdk |-> mdk, steps |-> steps,
       dl |-> \E i \in 1..Len(steps) : steps[i].c = "deadline",
       via |-> "", method |-> "", svc |-> "", cs |-> FALSE, ss |-> FALSE]
 
 \* calls that must be refused
 Methods == {"Unary", "ServerStream", "ClientStream", "BidiStream"}
 Probe(k, via, method, svc, cs, ss) ==
-  [n |-> k, kind |-> "probe", shape |-> "", req |-> 0, steps |-> <<>>, dl |-> FALSE,
+  [n |-> k, kind |-> "probe", shape |-> "", req |-> 0, mdk |-> 0, steps |-> <<>>, dl |-> FALSE,
    via |-> via, method |-> method, svc |-> svc, cs |-> cs, ss |-> ss]
 ProbeTuples ==
   { <<"stream", m, "ok", cs, ss>> : m \in Methods, cs \in BOOLEAN, ss \in BOOLEAN }
